@@ -155,8 +155,10 @@ def type_table_full(r):
     yield "types-256+new-footer", tzgen.tzif(2, trans, types, b"NEW5NDT,M3.2.0,M11.1.0")
     yield "types-256+std-footer", tzgen.tzif(2, trans, types, b"XYZ-3")
     # every type daylight-saving (the search for a standard-time default type finds none), type 0 in use
-    for n in (256, 255, 2):
-        yield "types-%d-all-dst" % n, tzgen.tzif(2, [(200000 * i, (i - 1) % n) for i in range(1, 40)],
+    # ... also with more types than a one-byte index can name (257, 258, 300: the surplus can never be referenced, but the
+    # search for the default type walks the whole table)
+    for n in (256, 255, 2, 257, 258, 300):
+        yield "types-%d-all-dst" % n, tzgen.tzif(2, [(200000 * i, (i - 1) % min(n, 256)) for i in range(1, 40)],
                                                   [(i * 10, True, b"D%02d" % (i % 40)) for i in range(n)], b"XYZ-3")
     types = types[:254]
     trans = [(200000 * i, i % 254) for i in range(1, 300)]
